@@ -69,6 +69,9 @@ class Node:
         self.deaf = False            # receives nothing (but may send)
         self.suppressed = []
         self.nested_rx = 0           # must stay 0: a receive thread never re-enters itself
+        self.last_rx_t = None
+        self.last_tx_t = None
+        self.rx_log = []             # (t, frame idx) of every frame handled by this node
         bus.nodes.append(self)
 
     def receive(self, fr):
@@ -77,11 +80,16 @@ class Node:
             return
         self.rx_active = True
         try:
-            self.handle(fr)
+            self._handle(fr)
             while self.rx_pending:
-                self.handle(self.rx_pending.pop(0))
+                self._handle(self.rx_pending.pop(0))
         finally:
             self.rx_active = False
+
+    def _handle(self, fr):
+        self.last_rx_t = self.bus.w.now
+        self.rx_log.append((self.last_rx_t, fr.idx))
+        self.handle(fr)
 
     def handle(self, fr):
         raise NotImplementedError
@@ -106,6 +114,7 @@ class Bus:
     def send(self, node, can_id, ext, data, fd=False, injected=False):
         w = self.w
         n = len(self.log)
+        node.last_tx_t = w.now
         if node.silent_from is not None and n >= node.silent_from:
             node.suppressed.append((w.now, can_id, data))
             return
